@@ -727,13 +727,26 @@ func (proc *Conproc) Write_verilog(conf *Config, arch *Arch, processor_module_na
 		result += op.Op_instruction_verilog_footer(arch, flavor)
 	}
 
+	// The iN_recv / oN_val registers are declared by the opcodes that use the ports: without any of them
+	// nothing is ever received or offered
+	hasInputOp := arch.HasAny(append([]string{"sic", "addi"}, unique["inputrecv"]...))
+	hasOutputOp := arch.HasAny([]string{"r2o", "r2owa", "r2owaa"})
+
 	for i := 0; i < int(proc.N); i++ {
-		result += "	assign " + Get_input_name(i) + "_received = " + Get_input_name(i) + "_recv;\n"
+		if hasInputOp {
+			result += "	assign " + Get_input_name(i) + "_received = " + Get_input_name(i) + "_recv;\n"
+		} else {
+			result += "	assign " + Get_input_name(i) + "_received = 1'b0;\n"
+		}
 	}
 
 	for i := 0; i < int(proc.M); i++ {
 		result += "	assign " + Get_output_name(i) + " = _aux" + Get_output_name(i) + ";\n"
-		result += "	assign " + Get_output_name(i) + "_valid = " + Get_output_name(i) + "_val;\n"
+		if hasOutputOp {
+			result += "	assign " + Get_output_name(i) + "_valid = " + Get_output_name(i) + "_val;\n"
+		} else {
+			result += "	assign " + Get_output_name(i) + "_valid = 1'b0;\n"
+		}
 	}
 
 	result += "endmodule\n"
